@@ -312,14 +312,21 @@ structure AlignedL (st : InLoopO) : Prop where
   rb : ∀ x ∈ st.rb, Has x
   rq : ∀ x ∈ st.rq, Has x
 
+theorem dropAckedO_mem (l : List SegO) (g : Ghost) : ∀ x ∈ (dropAckedO l g).l, x ∈ l := by
+  induction l generalizing g with
+  | nil => intro x hx; exact hx
+  | cons y rest ih =>
+    unfold dropAckedO
+    split
+    · intro x hx; exact List.mem_cons_of_mem _ (ih _ x hx)
+    · intro x hx; exact hx
+
 theorem inAck_acked (m1 : InLoop) (sn ts : U32) :
-    (inAck m1 sn ts).k.snd_buf.map (·.acked) =
-      (if itimediff sn m1.k.snd_una < 0 ∨ itimediff sn m1.k.snd_nxt ≥ 0 then m1.k.snd_buf
-       else ackLoop sn m1.k.snd_buf).map (·.acked) := by
-  obtain ⟨_, _, _, a4⟩ := parseAck_queues m1.k sn
+    (inAck m1 sn ts).k.snd_buf.map (·.acked) = (dropAcked (parseAck m1.k sn).snd_buf).map (·.acked) := by
+  obtain ⟨_, b2, _, _⟩ := shrinkBuf_queues (parseAck m1.k sn)
   unfold inAck
   simp only []
-  rw [← a4]
+  rw [← b2]
   unfold parseFastack
   split
   · rfl
@@ -327,39 +334,39 @@ theorem inAck_acked (m1 : InLoop) (sn ts : U32) :
 
 theorem inBodyO_al (regular : Bool) (data : Bytes) {st : InLoopO} (hs : SyncL st) (h : AlignedL st) :
     AlignedL (inBodyO regular data st) := by
-  have hu : ∀ x ∈ (unaO (rd32 data 16) st.sb st.gh).l, SbOk x := fun x hx => h.sb x (unaO_mem _ _ _ x hx)
+  have hu : ∀ x ∈ (dropAckedO (unaO (rd32 data 16) st.sb st.gh).l (unaO (rd32 data 16) st.sb st.gh).g).l, SbOk x :=
+    fun x hx => h.sb x (unaO_mem _ _ _ x (dropAckedO_mem _ _ x hx))
+  have hue := unaShrinkO_er regular (rd16 data 6) (rd32 data 16) hs.sb
   unfold inBodyO
   simp only []
+  generalize dropAckedO (unaO (rd32 data 16) st.sb st.gh).l (unaO (rd32 data 16) st.sb st.gh).g = u at hu hue ⊢
   split
   · -- ACK
     rename_i hc
-    obtain ⟨_, s2, _, _⟩ := inSt1_queues regular (rd16 data 6) (rd32 data 16) st.m
     have hb : inBody regular data st.m = inAck (inSt1 regular (rd16 data 6) (rd32 data 16) st.m) (rd32 data 12) (rd32 data 8) := by
       unfold inBody; simp only []; rw [if_pos hc]
     obtain ⟨_, _, _, a4⟩ := inAck_queues (inSt1 regular (rd16 data 6) (rd32 data 16) st.m) (rd32 data 12) (rd32 data 8)
-    have hm1 : (inSt1 regular (rd16 data 6) (rd32 data 16) st.m).k.snd_buf = er (unaO (rd32 data 16) st.sb st.gh).l := by
-      rw [s2, unaO_er, hs.sb]
-    have hl : (inBody regular data st.m).k.snd_buf.length = (unaO (rd32 data 16) st.sb st.gh).l.length := by
-      rw [hb, a4, hm1, er_length]
+    have hae := ackO_er (inSt1 regular (rd16 data 6) (rd32 data 16) st.m).k (rd32 data 12) u hue
+    have hl := congrArg List.length hae
+    rw [er_length] at hl
     have hak := inAck_acked (inSt1 regular (rd16 data 6) (rd32 data 16) st.m) (rd32 data 12) (rd32 data 8)
-    rw [← hb, hm1] at hak
+    rw [← hb, ← hae, map_acked_er] at hak
+    have ha0 : ∀ x ∈ (if itimediff (rd32 data 12) (inSt1 regular (rd16 data 6) (rd32 data 16) st.m).k.snd_una < 0 ∨
+          itimediff (rd32 data 12) (inSt1 regular (rd16 data 6) (rd32 data 16) st.m).k.snd_nxt ≥ 0
+          then u else ackLoopO (rd32 data 12) u.l u.g).l, SbOk x := by
+      split
+      · exact hu
+      · exact ackLoopO_sbOk _ _ _ hu
     refine ⟨?_, h.rb, h.rq⟩
     show ∀ x ∈ reattach (inBody regular data st.m).k.snd_buf _, SbOk x
-    split
-    · rename_i hcond
-      rw [if_pos hcond, map_acked_er] at hak
-      exact reattach_sbOk _ _ hl hak hu
-    · rename_i hcond
-      rw [if_neg hcond, ← ackLoopO_er _ _ (unaO (rd32 data 16) st.sb st.gh).g, map_acked_er] at hak
-      refine reattach_sbOk _ _ ?_ hak (ackLoopO_sbOk _ _ _ hu)
-      rw [hl, ← er_length (ackLoopO _ _ _).l, ackLoopO_er, ackLoop_length, er_length]
+    exact reattach_sbOk _ _ (by rw [hb, a4, hl]) hak (fun x hx => ha0 x (dropAckedO_mem _ _ x hx))
   · split
     · split
       · obtain ⟨d1, d2⟩ := parseDataO_has (inSt1 regular (rd16 data 6) (rd32 data 16) st.m).k
           { conv := rd32 data 0, cmd := BitVec.ofNat 8 (byteAt data 4), frg := BitVec.ofNat 8 (byteAt data 5), wnd := rd16 data 6,
             ts := rd32 data 8, sn := rd32 data 12, una := rd32 data 16,
             data := (data.drop IKCP_OVERHEAD).take (rd32 data 20).toNat }
-          st.rb st.rq (unaO (rd32 data 16) st.sb st.gh).g h.rb h.rq
+          st.rb st.rq u.g h.rb h.rq
         exact ⟨hu, d1, d2⟩
       · exact ⟨hu, h.rb, h.rq⟩
     · exact ⟨hu, h.rb, h.rq⟩
